@@ -585,7 +585,7 @@ func runC02(w *fw.W) {
 		}
 	}
 	// random deeper trees
-	nb := w.Pick(25, 500)
+	nb := w.Pick(60, 6000)
 	for b := 0; b < nb; b++ {
 		b := b
 		runBatch(fmt.Sprintf("random trees %d", b), func(emit func(item)) {
